@@ -196,8 +196,6 @@ def verify_machine(res, name, path, wd, base, cfile, ctext, index, root):
         return res
     nested = nested_history(info, facts)
     d2 = dict(defines, STEP_CONTRACT=None)
-    if 'content_order' in name:
-        d2['ORDER_LOG'] = None
     if nested:
         d2['SKIP_HIST'] = None
     inv, assigns = step_loop_contract(nb, tb, info['prefix'])
